@@ -108,12 +108,18 @@ func (x *Exec) monitorCall(fr *Frame, st *State, fn *ssa.Function, args []*Value
 }
 
 // guardedFieldAccess: taking the address of a protected field requires the lock.
-func (x *Exec) guardedFieldAccess(fr *Frame, st *State, p *Value, objT types.Type, field int, pos token.Pos) {
+func (x *Exec) guardedFieldAccess(fr *Frame, st *State, p *Value, objT types.Type, field int, pos token.Pos, in *ssa.FieldAddr) {
 	if len(x.db.Monitors) == 0 || p.K != KPtr || p.P.Cell != nil || p.P.Elem || len(p.P.Path) != 0 {
 		return
 	}
 	stT, ok := under(objT).(*types.Struct)
 	if !ok {
+		return
+	}
+	if unpublishedAlloc(in) {
+		// a field of an object this function has just allocated and not yet handed to anything (the
+		// composite literal of a constructor): no other thread can reach it, so no lock is needed yet
+		x.trusted["an object is private to the function that allocated it until its address is stored or passed on (composite literals initialise protected fields without the lock)"] = true
 		return
 	}
 	sn := structName(objT)
@@ -127,4 +133,41 @@ func (x *Exec) guardedFieldAccess(fr *Frame, st *State, p *Value, objT types.Typ
 			}
 		}
 	}
+}
+
+// unpublishedAlloc: in addresses a field of an object allocated earlier in the same basic block, and between
+// the allocation and in the object's address is used by nothing but field-address computations.
+func unpublishedAlloc(in *ssa.FieldAddr) bool {
+	if in == nil {
+		return false
+	}
+	al, ok := in.X.(*ssa.Alloc)
+	if !ok || al.Block() != in.Block() {
+		return false
+	}
+	seen := false
+	for _, i := range in.Block().Instrs {
+		if i == ssa.Instruction(al) {
+			seen = true
+			continue
+		}
+		if !seen {
+			continue
+		}
+		if i == ssa.Instruction(in) {
+			return true
+		}
+		if _, isFA := i.(*ssa.FieldAddr); isFA {
+			continue
+		}
+		if _, isDbg := i.(*ssa.DebugRef); isDbg {
+			continue
+		}
+		for _, op := range i.Operands(nil) {
+			if *op == ssa.Value(al) {
+				return false
+			}
+		}
+	}
+	return false
 }
